@@ -7,20 +7,27 @@ use crate::gf2::{Bits, Matrix};
 use std::collections::HashMap;
 use std::sync::{Arc, Mutex, OnceLock};
 
-/// Build a generator in the given (non-zero) state through `from_seed`.
+/// Build a generator in the given state through the public `Deserialize` implementation (so
+/// that the step / jump properties do not depend on how `from_seed` decodes or remaps seeds —
+/// that is C01's and C08's subject).
 pub fn gen_in_state(ty: Ty, s: &Bits) -> Box<dyn Gen> {
     let info = ty.info();
     let bytes = s.to_bytes(info.seed_len);
-    if s.is_zero() {
-        adapter::from_state_bytes(ty, &bytes).expect("zero state through Deserialize")
-    } else {
-        adapter::from_seed(ty, &bytes)
-    }
+    adapter::from_state_bytes(ty, &bytes).expect("state through Deserialize")
 }
 
-/// validated state observation
+/// state observation: the serde image, validated by the round trip Deserialize(image) == g
 pub fn state_of(g: &dyn Gen) -> Result<Bits, String> {
-    adapter::observe_state(g).map(|b| Bits::from_bytes(&b)).ok_or_else(|| "state observation unavailable (serde image not validated by from_seed(image) == g)".to_string())
+    let info = g.ty().info();
+    let img = g.bincode().ok_or("no serde image")?;
+    if img.len() != info.seed_len {
+        return Err(format!("serde image has {} bytes, expected {}", img.len(), info.seed_len));
+    }
+    let back = adapter::from_state_bytes(g.ty(), &img).ok_or("serde image does not deserialize")?;
+    if back.eq_dyn(g) != Some(true) {
+        return Err("state observation unavailable (Deserialize(Serialize(g)) != g)".to_string());
+    }
+    Ok(Bits::from_bytes(&img))
 }
 
 /// one real step from state s
